@@ -80,6 +80,46 @@ def r13_2(ctx):
     ctx.ob("R13.2", "eat-is-scan-then-commit", bad is None, bad or "every path that answers None / Some(false) leaves the queue untouched; mutation happens only on the matched path")
 
 
+def r13_6(ctx):
+    """push_front / push_back put the whole text in as ONE new buffer at that end and touch nothing else (no merging into a
+    neighbour - a merge into the first buffer puts the text behind that buffer's unread characters); eat()'s commit removes the
+    exhausted buffers from the FRONT, one per counted buffer, then cuts the matched part off the new front"""
+    for fn, op in (("push_front", "self.buffers.push_front"), ("push_back", "self.buffers.push_back")):
+        key, pcs = nfq.cells(ctx, AREA, BQ + fn)
+        bad = None
+        n = 0
+        for pc in nfq.feasible(pcs):
+            acts = [(a, tuple(str(x) for x in args)) for a, args in pc["actions"]]
+            empty = any(v for k, v in pc["guards"].items() if re.fullmatch(r"p1\.(len32|len)\(\) matches 0|p1\.is_empty\(\)|\(p1\.(len32|len)\(\) == 0\)", k))
+            if empty:
+                if acts:
+                    bad = "an empty buffer leads to %s" % [a for a, _ in acts][:2]
+                continue
+            n += 1
+            if acts != [(op, ("p1",))]:
+                bad = "%s does %s instead of adding the text as one buffer at that end: text merged into an existing buffer lands behind (or before) characters it must not pass" % (fn, [a for a, _ in acts][:3])
+        ctx.ob("R13.6", "push-adds-one-buffer/" + fn, bad is None and n >= 1, bad or "non-empty text -> exactly %s(buf)" % op, "markup5ever BufferQueue::" + fn)
+    key, pcs = nfq.cells(ctx, AREA, BQ + "eat")
+    bad = None
+    n = 0
+    for pc in nfq.feasible(pcs):
+        if str(pc["ret"]) != "Some(true)":
+            continue
+        n += 1
+        acts = [(a, tuple(str(x) for x in args)) for a, args in pc["actions"]]
+        rem = [(a, args) for a, args in acts if re.fullmatch(r"self\.buffers\.(remove|swap_remove_front|swap_remove_back|pop_back|truncate|split_off|retain|clear)", a)]
+        if rem and not all(a == "self.buffers.remove" and args == ("0",) for a, args in rem):
+            bad = "the commit removes buffers with %s%s: exhausted buffers are the ones at the FRONT of the queue, one per counted buffer" % (rem[0][0], rem[0][1])
+        names = [a for a, _ in acts]
+        drops = [i for i, a in enumerate(names) if a in ("self.buffers.pop_front", "self.buffers.drain") or (a == "self.buffers.remove")]
+        if drops:
+            # the removal sits in a loop counted by the number of exhausted buffers (or is one drain of that many)
+            begins = [a for a in names[:drops[0]] if a.startswith("loop-begin for _ in 0..")]
+            if names[drops[0]] != "self.buffers.drain" and not begins:
+                bad = bad or "buffers are removed outside a loop counted by the number of exhausted buffers"
+    ctx.ob("R13.6", "eat-commit-drops-front-buffers", bad is None and n >= 1, bad or "%d matching paths: pop_front per exhausted buffer, then the matched bytes cut off the front" % n, "markup5ever BufferQueue::eat")
+
+
 def r13_3(ctx):
     for fn in ("peek", "next", "pop_except_from"):
         key, pcs = nfq.cells(ctx, AREA, BQ + fn)
@@ -117,6 +157,8 @@ def run(ctx):
     ctx.rule("R13.5", "the boundary validators BufferQueue::eat relies on when it pops the matched prefix (UTF8::validate_prefix / validate_suffix) test the code point at the boundary (shared with R11.8)")
     from .C11 import utf8_boundary_validators
     ctx.guard("R13.5", "boundary", lambda: utf8_boundary_validators(ctx, "R13.5"))
+    ctx.rule("R13.6", "push_front / push_back add exactly one buffer at their end; eat() commits by dropping exhausted buffers from the front")
+    ctx.guard("R13.6", "push-and-commit", lambda: r13_6(ctx))
     ctx.rule("R13.1", "no empty buffer is stored: pushes on the false edge of len32()==0; every shrink of the front buffer is followed by an emptiness test that pops it")
     ctx.rule("R13.2", "eat() mutates the queue only after the whole pattern matched")
     ctx.rule("R13.3", "peek/next/pop_except_from use the front buffer only; peek decodes a char; SmallCharSet membership is bit n, bytes >= 64 never members")
